@@ -408,8 +408,8 @@ struct Gen {
 				o.db = any_alive_dim();
 				if(o.db < 0) continue;
 				o.b = alive_slot(o.db);
-				bool found = rng.chance(1, 2) && fit_view(o.db, o.b, x, o.cb, y);
-				if(!found && !find_view(o.db, o.b, x.D, nullptr, false, o.cb, y)) continue;
+				bool found = rng.chance(2, 3) && fit_view(o.db, o.b, x, o.cb, y);
+				if(!found && !find_view(o.db, o.b, x.D, &x, false, o.cb, y)) continue;
 				if(y.count() == 0) continue;
 				break;
 			}
@@ -437,7 +437,10 @@ struct Gen {
 				all.push_back(F_CASSIGN);
 				all.push_back(F_DCTOR);
 				all.push_back(F_CONV);
-				if(T.dmin >= 0 && !T.trivial) {}
+				if(T.throwing_move) {
+					all.push_back(F_MCTOR);
+					all.push_back(F_MASSIGN);
+				}
 			}
 			if(T.trivial) all = {F_ALLOC};
 			for(int k : all)
